@@ -570,7 +570,7 @@ class Engine:
             if source.is_module(mod):
                 return FuncV(mod + ":" + attr)
             return ModuleV(tgt)
-        if nm in self.mi.functions:
+        if nm in self.mi.functions or nm in self.mi.classes:
             return FuncV(self.mi.dotted + ":" + nm)
         if nm in self.mi.constants:
             return self.ev(self.mi.constants[nm], State({}, {}, []))
@@ -906,6 +906,21 @@ class Engine:
             return ModuleV(d)
         if isinstance(base, dict) and at in base:      # self.* record
             return base[at]
+        if isinstance(base, tuple):
+            # objects modelled by a tuple (contract.objects: {arity: "module:Class"}; e.g. a Region2D IS its region tuple,
+            # __getitem__ being tuple indexing).  Properties are inlined from the class source; methods are called by contract.
+            cls = (getattr(self.c, "objects", None) or {}).get(len(base))
+            if cls is not None:
+                mod, cname = cls.split(":")
+                mi2 = source.module(mod)
+                fn = mi2.functions.get(cname + "." + at)
+                if fn is not None:
+                    is_prop = any((getattr(d, "id", None) == "property") for d in fn.decorator_list)
+                    if is_prop:
+                        from .calls import inline_call
+                        fake = ast.Call(func=ast.Name(id=at, ctx=ast.Load()), args=[], keywords=[])
+                        return inline_call(self, cls + "." + at, mi2, fn, fake, st, self_value=base)
+                    return ("omethod", base, cls + "." + at)
         raise OutsideSubset("attribute .%s of %r (line %s)" % (at, base, getattr(node, "lineno", "?")))
 
     def select(self, arr: Arr, idx):
@@ -989,6 +1004,9 @@ class Engine:
             if isinstance(n, ast.Slice):
                 if n.step is not None:
                     stp = self.ev(n.step, st)
+                    if stp == -1 and n.lower is None and n.upper is None:
+                        specs.append(("r", toz(arr.shape[k])))         # a[::-1]: full reversal of this axis
+                        continue
                     if stp != 1:
                         raise OutsideSubset("slice step")
                 lo = self.ev(n.lower, st) if n.lower is not None else 0
@@ -1006,6 +1024,12 @@ class Engine:
             specs.append(("s", z3.IntVal(0), toz(arr.shape[k])))
         out_shape, src_idx, bvs = [], [], []
         for sp in specs:
+            if sp[0] == "r":
+                b = self.fresh("j", I)
+                bvs.append(b)
+                out_shape.append(sp[1])
+                src_idx.append(sp[1] - 1 - b)
+                continue
             if sp[0] == "s":
                 b = self.fresh("j", I)
                 bvs.append(b)
@@ -1021,6 +1045,13 @@ class Engine:
         # the same fact indexed by the SOURCE position (trigger: the source element), for reasoning from the source side
         cvs, src2, out2, rng = [], [], [], []
         for sp in specs:
+            if sp[0] == "r":
+                c = self.fresh("c", I)
+                cvs.append(c)
+                src2.append(c)
+                out2.append(sp[1] - 1 - c)
+                rng.append(z3.And(c >= 0, c < sp[1]))
+                continue
             if sp[0] == "s":
                 c = self.fresh("c", I)
                 cvs.append(c)
@@ -1079,6 +1110,9 @@ class Engine:
             f = s.value.func
             if isinstance(f, ast.Attribute) and isinstance(f.value, ast.Name) and f.value.id in ("logger", "warnings", "logging"):
                 return st
+            if (isinstance(f, ast.Attribute) and f.attr == "__init__" and isinstance(f.value, ast.Call)
+                    and isinstance(f.value.func, ast.Name) and f.value.func.id == "super"):
+                return st       # tuple-modelled objects: the base-class constructor only stores the tuple
         self.ev(s.value, st)
         return st
 
